@@ -326,7 +326,14 @@ func (e *Engine) checkAssert(st *State, name string, cond *Term) {
 	e.solver.SyncTo(st.pcList())
 	e.stats.AssertQueries++
 	r, mdl := e.solver.CheckModel(neg, e.inputVars(st, neg))
-	if e.solver2 != nil && r != Unknown {
+	if r == Unknown && e.solver2 != nil {
+		// the primary solver gave up: the second solver decides (no cross-check possible then)
+		e.solver2.SyncTo(st.pcList())
+		r, mdl = e.solver2.CheckModel(neg, e.inputVars(st, neg))
+		if r != Unknown {
+			e.rescued++
+		}
+	} else if e.solver2 != nil && r != Unknown {
 		// every assertion verdict is re-asked of an independent solver build (z3 5.1.0)
 		e.solver2.SyncTo(st.pcList())
 		e.crossChecked++
